@@ -33,8 +33,11 @@ impl LyNative for Args {
     hooks.push_root(list);
 
     for arg in io.env().args() {
+      // growing the list allocates, until the argument is in the list nothing else roots it
       let arg = val!(hooks.manage_str(arg));
+      hooks.push_root(arg);
       list.push(arg, &hooks.as_gc());
+      hooks.pop_roots(1);
     }
 
     hooks.pop_roots(1);
